@@ -10,7 +10,7 @@ From Coq Require Import List NArith ZArith Bool.
 Import ListNotations.
 From Base Require Import PyStr.
 From Model Require Import Wrap.
-From Proofs Require Import PyStrFacts WrapProofs CanonProofs.
+From Proofs Require Import PyStrFacts WrapProofs CanonProofs IdemProofs.
 Local Open Scope Z_scope.
 
 Theorem C02_reread_gives_the_words : forall esc text width c0 c1,
@@ -29,4 +29,23 @@ Print Assumptions C02_wrap_idempotent.
 Example C02_example :
   wrap_paragraph_lines (fun w => w) split_ws [97; 32; 32; 98; 10; 99; 99; 32; 100]%N 4 0 0 true true false
   = [[97; 32; 98]; [99; 99; 32; 100]]%N.
+Proof. vm_compute. reflexivity. Qed.
+
+(* Markdown mode (escapes at line heads): wrapping the wrapped paragraph again reproduces it, for every
+   text, width and pair of columns.  The second pass meets the escaped words where the first pass put them
+   (escaping is idempotent and never shortens a word) and makes the same decisions (Proofs/IdemProofs.v). *)
+Theorem C02_wrap_idempotent_markdown : forall text width c0 c1,
+  wrap_paragraph_lines escape_word split_ws
+    (join [nl] (wrap_paragraph_lines escape_word split_ws text width c0 c1 true true true)) width c0 c1 true true true
+  = wrap_paragraph_lines escape_word split_ws text width c0 c1 true true true.
+Proof. exact wrap_md_idempotent_all. Qed.
+Print Assumptions C02_wrap_idempotent_markdown.
+
+Theorem C02_escape_idempotent : forall w, goodword w -> escape_word (escape_word w) = escape_word w.
+Proof. exact escape_word_idem. Qed.
+Print Assumptions C02_escape_idempotent.
+
+(* non-vacuity: a line head that is escaped by the first pass and left alone by the second *)
+Example C02_markdown_example :
+  wrap_paragraph_lines escape_word split_ws [97; 97; 97; 32; 45; 32; 98]%N 4 0 0 true true true = [[97; 97; 97]; [92; 45; 32; 98]]%N.
 Proof. vm_compute. reflexivity. Qed.
